@@ -4,6 +4,7 @@ package main
 
 import (
 	"fmt"
+	"os"
 	"strings"
 	"sync"
 	"time"
@@ -44,6 +45,10 @@ func runC19(c *Ctx) {
 		switch {
 		case strings.Contains(q.Name, "rfok"):
 			d.Delay = 1500
+		case strings.Contains(q.Name, "rflong"):
+			d.Delay = 4500
+		case strings.Contains(q.Name, "rfmany"):
+			d.Delay = 3000
 		case strings.Contains(q.Name, "rfclose"):
 			d.Delay = 300
 			d.Kind = "close"
@@ -58,6 +63,9 @@ func runC19(c *Ctx) {
 		name    string
 		burst   int
 		outcome string
+		ttl     int       // lifetime of the entry in seconds
+		hitAges []float64 // ages at which a burst of hits is fired
+		group   string    // "" | "many": judged collectively
 		first   *chResp
 		hits    []*chResp
 		after   []*chResp
@@ -68,8 +76,16 @@ func runC19(c *Ctx) {
 	for rep := 0; rep < reps; rep++ {
 		for _, n := range bursts {
 			for _, oc := range []string{"rfok", "rfclose", "rfsilent"} {
-				keys = append(keys, &key{name: fmt.Sprintf("ok-n2-ttl12-%s-b%dr%dx%d.%s.test.", oc, n, rep, c.Seed, upOf[oc]), burst: n, outcome: oc})
+				keys = append(keys, &key{name: fmt.Sprintf("ok-n2-ttl12-%s-b%dr%dx%d.%s.test.", oc, n, rep, c.Seed, upOf[oc]), burst: n, outcome: oc, ttl: 12, hitAges: []float64{9.3}})
 			}
+		}
+		// a refresh that takes 4.5 s, and a second burst 3.5 s after the one that started it
+		for i := 0; i < 2; i++ {
+			keys = append(keys, &key{name: fmt.Sprintf("ok-n2-ttl24-rflong-l%dr%dx%d.pipe.test.", i, rep, c.Seed), burst: 8, outcome: "rflong", ttl: 24, hitAges: []float64{18.3, 21.8}})
+		}
+		// many distinct questions in their refresh window at the same moment, slow refreshes
+		for i := 0; i < 48; i++ {
+			keys = append(keys, &key{name: fmt.Sprintf("ok-n1-ttl12-rfmany-m%dr%dx%d.pipe.test.", i, rep, c.Seed), burst: 1, outcome: "rfmany", ttl: 12, hitAges: []float64{9.3}, group: "many"})
 		}
 	}
 	h := &chHist{}
@@ -94,7 +110,11 @@ func runC19(c *Ctx) {
 		wg.Add(1)
 		go func(ki int, k *key) {
 			defer wg.Done()
-			time.Sleep(time.Duration(ki*130) * time.Millisecond) // stagger the bursts
+			if k.group == "many" {
+				time.Sleep(time.Duration(ki%48*15) * time.Millisecond) // all of them hit their window together
+			} else {
+				time.Sleep(time.Duration(ki*130) * time.Millisecond) // stagger the bursts
+			}
 			k.first = h.query(b, "tcp", "", "", k.name, dns.TypeA, dns.ClassINET, "store", "")
 			if k.first.Err != "" || k.first.Serial == 0 {
 				return
@@ -105,20 +125,25 @@ func runC19(c *Ctx) {
 					time.Sleep(d)
 				}
 			}
-			sleepUntil(9.3)
-			var bw sync.WaitGroup
-			var hm sync.Mutex
-			for i := 0; i < k.burst; i++ {
-				bw.Add(1)
-				go func(i int) {
-					defer bw.Done()
-					r := h.query(b, listeners[i%len(listeners)], "", "", k.name, dns.TypeA, dns.ClassINET, "burst", "")
-					hm.Lock()
-					k.hits = append(k.hits, r)
-					hm.Unlock()
-				}(i)
+			for _, age := range k.hitAges {
+				sleepUntil(age)
+				var bw sync.WaitGroup
+				var hm sync.Mutex
+				for i := 0; i < k.burst; i++ {
+					bw.Add(1)
+					go func(i int) {
+						defer bw.Done()
+						r := h.query(b, listeners[(i+ki)%len(listeners)], "", "", k.name, dns.TypeA, dns.ClassINET, "burst", "")
+						hm.Lock()
+						k.hits = append(k.hits, r)
+						hm.Unlock()
+					}(i)
+				}
+				bw.Wait()
 			}
-			bw.Wait()
+			if k.outcome == "rflong" || k.group == "many" {
+				return
+			}
 			ages := []float64{10.2, 11.95}
 			if k.outcome != "rfok" {
 				ages = []float64{10.1, 10.5}
@@ -144,6 +169,15 @@ func runC19(c *Ctx) {
 		c.Violation("proxy-died", "the proxy died in the C19 scenario: "+res.Panic, map[string]any{"panic": res.Panic})
 		return
 	}
+	manyHits, manySlow := 0, 0
+	defer func() {
+		if manyHits > 0 && manySlow*4 >= manyHits {
+			c.Violation("hit-delayed-by-refresh:many-keys", fmt.Sprintf("%d of %d cache hits for distinct questions that entered their refresh window together took more than 1.2 s (refreshes take 3 s): hits waited for refreshes of other questions", manySlow, manyHits), map[string]any{"slow": manySlow, "hits": manyHits})
+		} else if manyHits > 0 {
+			c.Ev.Distinct("many-keys", manyHits >= 40)
+			c.Ev.Count("many_keys_hits_checked", int64(manyHits))
+		}
+	}()
 	for _, k := range keys {
 		if k.first == nil || k.first.Err != "" || k.first.Serial == 0 {
 			c.Inconclusive("store query failed for " + k.name)
@@ -169,7 +203,7 @@ func runC19(c *Ctx) {
 			}
 			lat := time.Duration(r.TRecv - r.TSend)
 			age := time.Duration(r.TSend - k.first.TRecv)
-			if age > 10700*time.Millisecond { // scheduling pushed this hit outside the guaranteed lifetime
+			if age > time.Duration(k.ttl)*time.Second-1300*time.Millisecond { // scheduling pushed this hit outside the guaranteed lifetime
 				c.Inconclusive("burst hit sent too late")
 				continue
 			}
@@ -185,6 +219,11 @@ func runC19(c *Ctx) {
 		}
 		// a hit that waits for the upstream is slow by construction (refresh >= 1.5 s); a single slow hit in a
 		// large burst can be scheduling noise, so at least a quarter of the burst must be slow
+		if k.group == "many" {
+			manyHits += len(k.hits)
+			manySlow += len(slow)
+			slow = nil
+		}
 		if len(slow) > 0 && len(slow)*4 >= len(k.hits) {
 			lat := time.Duration(slow[0].TRecv - slow[0].TSend)
 			c.Violation("hit-delayed-by-refresh:"+k.outcome, fmt.Sprintf("%d of %d cache hits inside the refresh window took more than 1.2 s (first: %v; the refresh takes 1.5 s or more): hits waited for the upstream", len(slow), len(k.hits), lat), cs(map[string]any{"latency_ms": lat.Milliseconds(), "listener": slow[0].Listener}))
@@ -203,6 +242,11 @@ func runC19(c *Ctx) {
 			}
 			return true
 		}
+		if os.Getenv("VERIF_DEBUG") != "" && k.outcome == "rflong" {
+			for i, f := range fs {
+				fmt.Printf("DEBUG %s fetch#%d recv=%.3f send=%.3f connEnd=%.3f serial=%d bg=%v\n", k.name, i, float64(f.TRecv)/1e9, float64(f.TSend)/1e9, float64(f.ConnEnd)/1e9, f.Serial, background(f))
+			}
+		}
 		for i := 1; i < len(fs); i++ {
 			if !background(fs[i]) {
 				continue
@@ -215,6 +259,10 @@ func runC19(c *Ctx) {
 				if endI == 0 { // never answered (silent / closed): the proxy waits for its 6 s prefetch timeout or the connection error
 					if k.outcome == "rfsilent" {
 						endI = fs[i].TRecv + int64(5500*time.Millisecond)
+					} else if k.outcome == "rflong" || k.outcome == "rfmany" || k.outcome == "rfok" {
+						// the scripted delay had not elapsed when the log was read: the refresh is in flight
+						// until the reply is sent (a little less, to stay on the safe side)
+						endI = fs[i].TRecv + map[string]int64{"rflong": 4400, "rfmany": 2900, "rfok": 1400}[k.outcome]*int64(time.Millisecond)
 					} else {
 						endI = fs[i].TRecv + int64(280*time.Millisecond) // the scripted close happens 300 ms after the query arrived
 					}
